@@ -342,6 +342,8 @@ struct Vis<'a> {
     tyname: &'static str,
     ctx: &'a mut Ctx,
     only: Option<String>,
+    /// None: every window 1..=len+3; Some: the listed windows (long series)
+    ws: Option<Vec<usize>>,
 }
 
 impl<'a> Vis<'a> {
@@ -396,7 +398,8 @@ impl<'a, T: Elem> BackendVisitor<T> for Vis<'a> {
             }
         }
         let len = self.len;
-        for w in 1..=len + 3 {
+        let ws: Vec<usize> = self.ws.clone().unwrap_or_else(|| (1..=len + 3).collect());
+        for w in ws {
             for d in DRIVERS {
                 if d == Driver::CustomIter {
                     self.one::<V, T, Vec<i32>, i32>(name, "iterator", v, d, w, Path::Ret);
@@ -424,13 +427,24 @@ impl<'a, T: Elem> BackendVisitor<T> for Vis<'a> {
 
 fn run_len(len: usize, ctx: &mut Ctx, only: Option<String>) {
     let word: Vec<X> = (0..len).map(|i| Some(10.0 + i as f64)).collect();
+    // long series: reduced back-end set (two ring offsets, two strides, two chunkings) and the windows
+    // around the sizes where a narrow index or a size-dependent fast path would change behaviour
+    let (level, ws) = if len > 16 {
+        let mut ws = vec![1usize, 2, 15, 16, 17, 31, 32, 33, 127, 128, 129, 255, 256, 257, len - 1, len, len + 1, len + 3];
+        ws.retain(|w| *w <= len + 3);
+        ws.sort();
+        ws.dedup();
+        (0u8, Some(ws))
+    } else {
+        (1u8, None)
+    };
     {
-        let mut vis = Vis { len, tyname: "i32", ctx, only: only.clone() };
-        for_backends::<i32, _>(&word, 1, &mut vis);
+        let mut vis = Vis { len, tyname: "i32", ctx, only: only.clone(), ws: ws.clone() };
+        for_backends::<i32, _>(&word, level, &mut vis);
     }
     {
-        let mut vis = Vis { len, tyname: "Option<f64>", ctx, only };
-        for_backends_opt(&word, 1, &mut vis);
+        let mut vis = Vis { len, tyname: "Option<f64>", ctx, only, ws };
+        for_backends_opt(&word, level, &mut vis);
     }
 }
 
@@ -447,11 +461,12 @@ fn main() {
         run_len(case["len"].as_u64().unwrap_or(0) as usize, &mut ctx, case["backend"].as_str().map(|s| s.to_string()));
         std::process::exit(finish_replay(&run, &stored, ctx));
     }
-    let lens: Vec<usize> = (0..=max_len).collect();
+    let mut lens: Vec<usize> = (0..=max_len).collect();
+    lens.extend(if run.quick() { vec![40, 270] } else { vec![24, 40, 70, 130, 270, 300] });
     let total = par_items(&lens, run.threads, |len, ctx| run_len(*len, ctx, None));
     let meta = Meta {
         rule: "protocol machine (driver x input back end x output container x out-path x len x w): the stateful callback records (call#, arguments); the recorded trace must conform event by event to the explicit model: len calls, position i gets the new element(s) at i, the element/index at i-w+1 when i>=w-1, 'nothing' when i<min(w,len)-1, unconstrained when w>len and i=len-1; slice forms get exactly x[max(0,i-w+1)..=i]; out[i] = result of call i. Elements 10+i / 100+i are distinct so identity is observable. Non-trivial = distinct (driver, back end, output, path, len, w) runs.".into(),
-        bounds: json!({"len": format!("0..={max_len}"), "w": "1..=len+3", "drivers": DRIVERS.iter().map(|d| format!("{d:?}")).collect::<Vec<_>>(),
+        bounds: json!({"len": format!("0..={max_len}, and the long lengths {:?} on a reduced back-end set with windows 1, 2, 15..17, 31..33, 127..129, 255..257, len-1..len+3", &lens[max_len + 1..]), "w": "1..=len+3", "drivers": DRIVERS.iter().map(|d| format!("{d:?}")).collect::<Vec<_>>(),
             "input_backends": "Vec, Arc<Vec>, [T;N], VecDeque x 8 head offsets, Array1, ArrayView1 steps {1,2,3,-1,-2}, ArrayViewMut1, Arc<Array1> (elements i32 and Option<f64>), OptIter<Vec<f64>>, OptIter<Array1<f64>>, Float64Chunked/&Float64Chunked under every chunking into <=3 chunks",
             "outputs": "Vec, VecDeque, Array1, Int32Chunked (returned and caller buffer)"}),
         assumptions: vec![
